@@ -461,6 +461,26 @@ func (tb *TermBuilder) load(addr ssa.Value) *Term {
 					only = st
 				}
 			}
+			// a struct copied once as a whole from another local struct (`x := y`, a by-value argument): read y's field
+			if n == 0 && len(tb.stores[al]) == 1 && localOnly(al) {
+				if ld, isLd := tb.stores[al][0].Val.(*ssa.UnOp); isLd && ld.Op == token.MUL {
+					if src, isAl := tb.Strip(ld.X).(*ssa.Alloc); isAl && src != al {
+						key := fmt.Sprintf("%p.%d.copy", al, a.Field)
+						if tb.busyLoad == nil {
+							tb.busyLoad = map[string]bool{}
+						}
+						if !tb.busyLoad[key] {
+							tb.busyLoad[key] = true
+							fa := &fieldOf{X: src, Field: a.Field}
+							t := tb.loadField(fa, ld)
+							delete(tb.busyLoad, key)
+							if t != nil {
+								return t
+							}
+						}
+					}
+				}
+			}
 			if n == 1 && len(tb.stores[al]) == 0 {
 				key := fmt.Sprintf("%p.%d", al, a.Field)
 				if tb.busyLoad == nil {
@@ -486,6 +506,99 @@ func (tb *TermBuilder) load(addr ssa.Value) *Term {
 		}
 	}
 	return tb.Of(addr)
+}
+
+// precedes: a is executed before b on every way to b (same block earlier, or a's block strictly dominates b's).
+func precedes(a, b ssa.Instruction) bool {
+	if a.Block() == b.Block() {
+		for _, ins := range a.Block().Instrs {
+			if ins == a {
+				return true
+			}
+			if ins == b {
+				return false
+			}
+		}
+		return false
+	}
+	return a.Block().Dominates(b.Block())
+}
+
+// localOnly: the address of the local never leaves the function — it is only loaded, stored into, and its fields are
+// only loaded and stored into.
+func localOnly(a *ssa.Alloc) bool {
+	refs := a.Referrers()
+	if refs == nil {
+		return false
+	}
+	for _, r := range *refs {
+		switch x := r.(type) {
+		case *ssa.Store:
+			if x.Addr != ssa.Value(a) {
+				return false
+			}
+		case *ssa.UnOp:
+			if x.Op != token.MUL {
+				return false
+			}
+		case *ssa.DebugRef:
+		case *ssa.FieldAddr:
+			if frefs := x.Referrers(); frefs != nil {
+				for _, fr := range *frefs {
+					switch y := fr.(type) {
+					case *ssa.UnOp:
+						if y.Op != token.MUL {
+							return false
+						}
+					case *ssa.Store:
+						if y.Addr != ssa.Value(x) {
+							return false
+						}
+					case *ssa.DebugRef:
+					default:
+						return false
+					}
+				}
+			}
+		default:
+			return false
+		}
+	}
+	return true
+}
+
+// fieldOf names field Field of the local struct X.
+type fieldOf struct {
+	X     *ssa.Alloc
+	Field int
+}
+
+// loadField: the term of the single value stored into the field of a local struct that is never stored as a whole
+// (nil when that does not hold).
+func (tb *TermBuilder) loadField(f *fieldOf, before ssa.Instruction) *Term {
+	if len(tb.stores[f.X]) != 0 || !localOnly(f.X) {
+		return nil
+	}
+	var only *ssa.Store
+	n := 0
+	for _, blk := range tb.Fn.Blocks {
+		for _, ins := range blk.Instrs {
+			st, ok := ins.(*ssa.Store)
+			if !ok {
+				continue
+			}
+			fa, ok := st.Addr.(*ssa.FieldAddr)
+			if !ok || fa.Field != f.Field || !mayBe(fa.X, f.X, 0) {
+				continue
+			}
+			n++
+			only = st
+		}
+	}
+	if n != 1 || dependsOnField(only.Val, f.X, f.Field, 0) || !precedes(only, before) {
+		return nil
+	}
+	return tb.Of(only.Val)
 }
 
 // mayBe: v is al, or a phi one of whose (transitive) operands is al.
